@@ -79,6 +79,7 @@ static struct {
     int in_op;                /* refusing during the current op (arm o) */
     oplog_t* log; int nlog, caplog;
     int fds_before;
+    char* vbuf;               /* setvbuf storage of the cookie stream (freed after the stream is closed) */
 } S;
 
 static int count_fds(void) {
@@ -145,7 +146,6 @@ static void op_end(int limited, char op, long n, int ok) {
     int devfail = 0;
     if (S.kind == 'p') { if (!ok) { devfail = 1; S.failed = 1; S.fired = 1; } }
     else devfail = S.failed;
-    if (S.in_op && S.armkind == 'o' && !S.sticky && S.opno == S.at) { S.fired = S.fired || !ok; }
     S.in_op = 0;
     log_op(op, n, ok, S.kind == 'p' ? devfail : S.failed);
 }
@@ -180,7 +180,7 @@ int __wrap_fclose(FILE* f) {
 }
 
 static void sink_reset(void) {
-    free(S.data); free(S.log);
+    free(S.data); free(S.log); free(S.vbuf);
     memset(&S, 0, sizeof S);
 }
 
@@ -242,7 +242,7 @@ static void cmd_writer_create(char* t) {
         if (!f) { fputs(" W=fopencookie-failed", stdout); return; }
         char* b = field(t, 4);
         if (b[0] == 'u') setvbuf(f, NULL, _IONBF, 0);
-        else if (b[0] == 's') setvbuf(f, NULL, _IOFBF, (size_t)atol(b + 1));
+        else if (b[0] == 's') { size_t bn = (size_t)atol(b + 1); S.vbuf = (char*)malloc(bn ? bn : 1); setvbuf(f, S.vbuf, _IOFBF, bn); }   /* glibc ignores the size without a buffer */
         S.stream = f; S.kind = 'c';
         g_writer = carquet_writer_create_file(f, g_schema, &opt, &err);
     } else {
@@ -294,7 +294,7 @@ static void put_state(char letter, int st) { printf(" %c=%d:%d:%ld", letter, st,
 
 static void user_close_stream(void) {
     /* a FILE* writer leaves the stream to its owner: close it with the device unconstrained */
-    if (S.kind == 'c' && S.stream) { FILE* f = S.stream; S.kind = 0; __real_fclose(f); S.stream = NULL; S.kind = 'c'; }
+    if (S.kind == 'c' && S.stream) { FILE* f = S.stream; S.stream = NULL; __real_fclose(f); }
 }
 
 static void cmd_close(void) {
@@ -311,7 +311,7 @@ static void cmd_close(void) {
             vh_puthex(b, (size_t)got); free(b);
         }
     } else fputc('-', stdout);
-    printf(":%d", count_fds() - S.fds_before - (S.kind == 'c' ? 0 : 0));
+    printf(":%d", count_fds() - S.fds_before);
     user_close_stream();
 }
 
